@@ -508,7 +508,7 @@ func c06Deadline(n int, b Bounds) *Scenario {
 				lib, peer, _ := NewPipe(PipeOpts{Name: "srv", CloseUnblocksRecv: true})
 				// the first n requests get a context that never ends, the next one a context whose deadline has
 				// passed already (a standard library context: no timer is involved once the deadline is in the past)
-				expired, cancelExpired := context.WithDeadline(context.Background(), time.Unix(1, 0))
+				expired, cancelExpired := context.WithDeadlineCause(context.Background(), time.Unix(1, 0), errCause)
 				defer cancelExpired()
 				nctx := 0
 				srv := jrpc2.NewServer(anyAssigner{h.handler()}, &jrpc2.ServerOptions{Concurrency: n, NewContext: func() context.Context {
